@@ -12,14 +12,24 @@ mod prng;
 mod sched;
 mod seams;
 mod session;
+mod zygote;
 
 fn usage() -> ! {
     eprintln!("usage: blots-sim <selftest|c03|replay> ...");
     std::process::exit(2);
 }
 
+fn pristine_handler(payload: &str) -> String {
+    match serde_json::from_str::<serde_json::Value>(payload) {
+        Ok(req) if req["kind"] == "c02" => c02::pristine_handler(&req),
+        _ => String::new(),
+    }
+}
+
 fn main() {
     session::install_panic_hook();
+    // before anything else: fork the pristine-process executor while single-threaded
+    zygote::start(pristine_handler);
     let args: Vec<String> = std::env::args().collect();
     if args.len() < 2 {
         usage();
